@@ -227,7 +227,7 @@ func checkSpec(data []byte) (accepted bool, consumed bool, err error) {
 					e1 = fmt.Errorf("Spec.DFA returns automaton=%v, map=%v and error=%v; exactly one side must be set", d != nil, tm != nil, derr)
 				}
 			}); p != nil {
-				if !(bigAutomaton(sp) && reindexKnown()) {
+				if !(bigAutomaton(sp) && reindexKnown()) && !rec.QueuePanic(p) {
 					return fmt.Errorf("Spec.DFA: %v", p)
 				}
 				dfaPanicked = true
